@@ -14,7 +14,8 @@ ASSUMPTIONS = [
 ]
 RULE = ("random line soups (1-14 lines) over a pool of keyword lines in en/de/fr/ja (with and without names, with wrong case), step lines, tag lines "
         "(good, with comment, malformed), table rows (good, ragged, unterminated, escaped pipes), doc-string delimiters, text, blank and comment "
-        "lines, language headers (known, unknown); all single-line insert/delete/duplicate/swap/truncate mutations of valid documents; catalogued "
+        "lines, language headers (known, unknown); table-heavy soups behind a valid scenario head (rows, ragged rows, comment and blank lines "
+        "inside tables, Examples); all single-line insert/delete/duplicate/swap/truncate mutations of valid documents; catalogued "
         "faults injected at every position where they are faults; x entry points feature / rule / scenario / steps / tags x language argument")
 LEVEL_TEXT = ("Theorems over Gherkin.v: parsing is a total function whose outcome is a model or an error - there is no other outcome -; an error line "
               "is the number of a line of the text (1..number of lines), namely the first line the machine rejects after accepting all lines before "
@@ -64,7 +65,12 @@ def valid_doc(rnd, lang="en"):
         lines.append("    %sb%d" % (K[7], i))
         if rnd.random() < 0.4:
             lines.append("      | h1 | h2 |")
+            if rnd.random() < 0.5:          # comment / blank lines inside a table do not count as rows
+                lines.append(rnd.choice(["      # note", "", "# c"]))
             lines.append("      | 1 | 2 |")
+            if rnd.random() < 0.3:
+                lines.append(rnd.choice(["      # note", ""]))
+                lines.append("      | 3 | 4 |")
             marks["table_rows"].append(len(lines))
         elif rnd.random() < 0.3:
             lines.append('      """')
@@ -75,6 +81,8 @@ def valid_doc(rnd, lang="en"):
         if outline:
             lines.append("    %s:" % K[4])
             lines.append("      | x |")
+            if rnd.random() < 0.5:
+                lines.append(rnd.choice(["      # note", "", "# c"]))
             lines.append("      | 1 |")
             marks["table_rows"].append(len(lines))
         else:
@@ -166,6 +174,13 @@ def suites(tier, seed):
         if rnd.random() < 0.05:
             text = text.replace("\n", "\r\n")
         soups.append({"entry": rnd.choice(entries), "text": text, "lang": rnd.choice([None, None, None, "de", "fr", "ja"])})
+    TPOOL = ["| a | b |", "| 1 | 2 |", "  | x | y |", "# c", "", "   ", "| a |", "| a | b | c |", "| a | b", "When w", "Examples:", "Examples: e",
+             "  # note", "| | |", "@t", '"""', "text"]
+    for _ in range(4000 if thorough else 800):
+        outline = rnd.random() < 0.5
+        head = ["Feature: f", "  Scenario Outline: o" if outline else "  Scenario: s", "    Given a"]
+        body = [rnd.choice(TPOOL) for _ in range(rnd.randint(2, 9))]
+        soups.append({"entry": "feature", "text": "\n".join(head + body) + "\n", "lang": None})
     for t in ("", "\n", " ", "@a", " @a", "\n@a", "@a\n@b c", "x", "@a\n\n  @b #c\n"):
         soups.append({"entry": "tags", "text": t, "lang": None})
     muts = []
